@@ -31,7 +31,7 @@ package dtls
 //@ ensures body-is-marshalled: sameArray(content, retBytes("Message.Marshal", 0)) && len(content) == len(retBytes("Message.Marshal", 0)) && offsetOf(content) == offsetOf(retBytes("Message.Marshal", 0))
 //@ ensures empty-message: result1 == nil && len(content) == 0 ==> len(result0) == 1 && len(result0[0]) == 12
 //@ ensures one-fragment-per-chunk: result1 == nil ==> len(result0) == len(contentFragments) && len(result0) >= 1
-//@ ensures first-offset-zero: result1 == nil ==> FRAGOFF(result0[0]) == 0
+//@ ensures first-offset-zero: result1 == nil && len(content) <= 0xFFFFFF ==> FRAGOFF(result0[0]) == 0
 //@ ensures covers-body: result1 == nil && len(content) <= 0xFFFFFF ==> int(FRAGOFF(result0[len(result0)-1])) + len(result0[len(result0)-1]) - 12 == len(content)
 //@ ensures each-fragment: len(result0) == 0 || (result1 == nil && len(content) <= 0xFFFFFF ==> forall(0, len(result0), func(k int) bool { return len(result0[k]) >= 12 && SAMEHDR(result0[k], dtlsHandshake)
 //@     && int(FRAGLEN(result0[k])) == len(result0[k]) - 12 && len(result0[k]) - 12 <= c.maximumTransmissionUnit && (len(content) > 0 ==> len(result0[k]) > 12)
